@@ -30,7 +30,7 @@ import sys
 from collections.abc import Hashable
 from typing import TypeVar
 
-from happysimulator.sketching.base import FrequencyEstimate, FrequencySketch
+from happysimulator.sketching.base import FrequencyEstimate, FrequencySketch, stable_item_repr
 
 T = TypeVar("T", bound=Hashable)
 
@@ -149,7 +149,7 @@ class CountMinSketch(FrequencySketch[T]):
         # str/bytes items (PYTHONHASHSEED), which made estimates differ between runs.
         h = hashlib.sha256()
         h.update(struct.pack(">Q", self._hash_seeds[row]))
-        h.update(repr(item).encode("utf-8"))
+        h.update(stable_item_repr(item).encode("utf-8"))
         return struct.unpack(">Q", h.digest()[:8])[0] % self._width
 
     @property
